@@ -4,7 +4,7 @@ ENTRY = {'coq_dir': 'C06',
  'model_files': ['Glue'],
  'harness': 'c05',
  'harness_extra': '--focus limits',
- 'cases': {'quick': 1500, 'thorough': 40000},
+ 'cases': {'quick': 1500, 'thorough': 400000},
  'consts': [],
  'rule': 'same harness as C05 with the generator biased to small limits (1..3) so that the counted sets saturate; the oracle recomputes '
          'the ledger of established connections from the events and the accept() calls the implementation made and checks the per-peer '
